@@ -9,7 +9,7 @@ verus! {
 //!include prelude/app.rs
 use trie_rs::{Trie, TrieBuilder};
 
-//!fn src/core/mod.rs is_path_prefix props=C01,C10
+//!fn src/core/mod.rs is_path_prefix props=C01,C10,C04
 pub(crate) fn is_path_prefix(prefix: &str, path: &str) -> ⟦(r: ⟧bool⟦)⟧
 @    ensures
 @        // C01 / C10: whole path components, never raw string prefixes ("app" contains "app/x" but not "app2/x")
@@ -24,7 +24,7 @@ pub(crate) fn is_path_prefix(prefix: &str, path: &str) -> ⟦(r: ⟧bool⟦)⟧
 
 pub open spec fn in_seq(s: Seq<String>, upto: int, v: Seq<char>) -> bool { exists|i: int| 0 <= i < upto && #[trigger] s[i]@ == v }
 pub open spec fn in_rest(s: Seq<String>, from: int, v: Seq<char>) -> bool { exists|i: int| from <= i < s.len() && #[trigger] s[i]@ == v }
-//!fn src/core/mod.rs path_prefix_search props=C01,C10
+//!fn src/core/mod.rs path_prefix_search props=C01,C10,C04
 pub(crate) fn path_prefix_search(trie: &Trie<u8>, path: &str) -> ⟦(out: ⟧Vec<String>⟦)⟧
 @    ensures
 @        // exactly the stored entries that are `path` or contain it (whole components), each once
@@ -347,7 +347,7 @@ pub open spec fn index_ok(ts: Seq<Target>, roots: Set<Seq<char>>, dag: Dag) -> b
 pub open spec fn root_views(s: Set<Seq<char>>) -> Set<Seq<char>> { s }
 
 impl<'a> Index<'a> {
-//!fn src/core/mod.rs Index::new rules=R1,R3,R5,R6,R16,R17 props=C10,C03,C05,C09,C01
+//!fn src/core/mod.rs Index::new rules=R1,R3,R5,R6,R16,R17 props=C10,C03,C05,C09,C01,C04
     pub(crate) fn new(
         cfg: &'a Config,
         visible_targets: &HashSet<&String>,
@@ -355,7 +355,7 @@ impl<'a> Index<'a> {
     ) -> ⟦(res: ⟧Result<Self, MonorailError>⟦)⟧
 @        requires cfg.targets@.len() < usize::MAX,
 @        ensures
-@            res matches Ok(ix) ==> index_ok(cfg.targets@, visible_targets@, ix.dag), // [C10,C03,C05,C09]
+@            res matches Ok(ix) ==> index_ok(cfg.targets@, visible_targets@, ix.dag), // [C10,C03,C05,C09,C04]
 @            // C01: the tries and the reverse maps represent the configuration (what analyze_change requires)
 @            res matches Ok(ix) ==> rep_ok(ix, cfg.targets@), // [C01]
     {
